@@ -8,7 +8,7 @@ mkdir -p .cache work evidence coq/gen runner/extracted
 (cd translator && cargo build --offline 2>&1 | tail -3)
 .cache/translator-target/debug/rs2v /repo coq/gen
 # hand-written specifications rendered into Coq (formats of the field types, layouts of the message types)
-python3 -c "import sys; sys.path.insert(0,'lib'); import fmtgen, spec2v; fmtgen.write_v('coq/gen'); spec2v.write_v('coq/gen')"
+python3 -c "import sys; sys.path.insert(0,'lib'); import fmtgen, spec2v, scen2v; fmtgen.write_v('coq/gen'); spec2v.write_v('coq/gen'); scen2v.write_v()"
 (cd harness && cargo build --offline 2>&1 | tail -3)
 (cd coq && coq_makefile -f _CoqProject -o Makefile.coq && timeout 3000 make -f Makefile.coq -j16 2>&1 | grep -v "^Closed under\|^COQC\|^COQDEP" | tail -20)
 mv coq/swiftmt_model.ml coq/swiftmt_model.mli runner/extracted/ 2>/dev/null || true
